@@ -83,10 +83,34 @@ func runOne(ctx context.Context, solver, file string, timeout time.Duration, see
 	return solverAnswer{solver, res, out, time.Since(start).Milliseconds()}
 }
 
-// Solve discharges one obligation.
+// Solve discharges one obligation: first the proof-oriented encoding; if that gives no definite answer,
+// the macro encoding (equivalent, friendlier to model finding) is tried.
 func Solve(o *Obligation, cfg *SolverCfg) {
-	file := filepath.Join(cfg.Dir, sanitize(o.Name)+".smt2")
-	_ = os.WriteFile(file, []byte(o.SMT), 0o644)
+	solveWith(o, cfg, o.SMT, "")
+	if o.Result == "unsat" || o.Result == "sat" || o.Kind == "vacuity" {
+		return
+	}
+	if !strings.HasPrefix(o.SMT, Prelude) {
+		return
+	}
+	first := *o
+	alt := PreludeMacro + o.SMT[len(Prelude):]
+	solveWith(o, cfg, alt, ".m")
+	o.Ms += first.Ms
+	if o.Result == "unsat" || o.Result == "sat" {
+		o.SMT = alt
+		o.Encoding = "macro"
+		return
+	}
+	o.Output = first.Output + " || macro encoding: " + o.Output
+	if first.Result == "timeout" || o.Result == "timeout" {
+		o.Result = "timeout"
+	}
+}
+
+func solveWith(o *Obligation, cfg *SolverCfg, smt, suffix string) {
+	file := filepath.Join(cfg.Dir, sanitize(o.Name)+suffix+".smt2")
+	_ = os.WriteFile(file, []byte(smt), 0o644)
 	ctx, cancel := context.WithTimeout(context.Background(), cfg.Timeout+2*time.Second)
 	defer cancel()
 	ch := make(chan solverAnswer, len(cfg.Solvers))
@@ -117,8 +141,8 @@ func Solve(o *Obligation, cfg *SolverCfg) {
 		o.Result, o.Solver, o.Ms, o.Output = winner.res, winner.solver, winner.ms, winner.out
 		if winner.res == "sat" && o.Kind != "vacuity" {
 			// fetch a model from the winning solver
-			mfile := filepath.Join(cfg.Dir, sanitize(o.Name)+".model.smt2")
-			_ = os.WriteFile(mfile, []byte(o.SMT+"(get-model)\n"), 0o644)
+			mfile := filepath.Join(cfg.Dir, sanitize(o.Name)+suffix+".model.smt2")
+			_ = os.WriteFile(mfile, []byte(smt+"(get-model)\n"), 0o644)
 			ctx2, cancel2 := context.WithTimeout(context.Background(), cfg.Timeout+2*time.Second)
 			a := runOne(ctx2, winner.solver, mfile, cfg.Timeout, cfg.Seed)
 			cancel2()
